@@ -22,7 +22,7 @@ def _data(desc):
   return _DCACHE[k]
 
 
-def gen_dataset(r, dmax=6, kind=None, tuples=True, unknown=False, big=False, tiny_scale_p=0.0, int_rows_p=0.0):
+def gen_dataset(r, dmax=6, kind=None, tuples=True, unknown=False, big=False, tiny_scale_p=0.0, int_rows_p=0.0, int_dtype_p=0.0, one_class_p=0.0):
   d = r.randint(2, dmax)
   c = r.choice([2, 2, 3, 3, 4])
   n = max(4 * d, 5 * c) + r.randint(0, 24 if big else 12)
@@ -42,6 +42,10 @@ def gen_dataset(r, dmax=6, kind=None, tuples=True, unknown=False, big=False, tin
     desc["perm"] = 1
   if r.random() < 0.35:
     desc["chunk_ids"] = r.choice(["onebased", "gaps", "shuffled", "gaps_shuffled"])
+  if int_dtype_p and (kind or "blobs") == "blobs" and not desc.get("global_scale") and r.random() < int_dtype_p:
+    desc["int_dtype"] = True
+  if one_class_p and tuples and r.random() < one_class_p:
+    desc["one_class_pairs"] = r.choice([1, -1])
   if int_rows_p and (kind or "blobs") == "blobs" and not desc.get("global_scale") and r.random() < int_rows_p:
     # (never together with a tiny global scale: rounding would collapse every point onto 0)
     desc["int_rows"] = r.choice([0.3, 0.6])
@@ -148,7 +152,7 @@ def gen_history(seed, tier, classes=None, weights=None, n_ops=(6, 16),
                 max_handles=3, pre_p=0.4, dmax=6, fresh_p=0.0, dataset_kinds=None,
                 unknown=False, verbose_p=0.15, extras_p=0.5, share_p=0.3,
                 classifier_bias=1, cp_fit_p=0.25, cp_invalid_p=0.0, calib_invalid_p=0.25,
-                store_bias=1, tiny_scale_p=0.0, wide_p=0.0, grid_p=0.0, failfirst_p=0.05, crash_sweep_p=0.0, buffer_p=0.0, view_p=0.0, int_rows_p=0.0):
+                store_bias=1, tiny_scale_p=0.0, wide_p=0.0, grid_p=0.0, failfirst_p=0.05, crash_sweep_p=0.0, buffer_p=0.0, view_p=0.0, int_rows_p=0.0, int_dtype_p=0.0, one_class_p=0.0):
   r = substream(seed, "hist")
   if wide_p and substream(seed, "hist-wide").random() < wide_p:
     return gen_wide_history(seed)
@@ -172,7 +176,8 @@ def gen_history(seed, tier, classes=None, weights=None, n_ops=(6, 16),
   for i in range(nd):
     kind = r.choice(dataset_kinds) if dataset_kinds else None
     datasets["D%d" % i] = gen_dataset(r, dmax=dmax, kind=kind, unknown=unknown,
-                                      tiny_scale_p=tiny_scale_p, int_rows_p=int_rows_p)
+                                      tiny_scale_p=tiny_scale_p, int_rows_p=int_rows_p,
+                                      int_dtype_p=int_dtype_p, one_class_p=one_class_p)
   if view_p and r.random() < view_p:
     # a second store that is a slice of D0's array (train / validation split of
     # one array): swapping one for the other as preprocessor must take effect
@@ -242,7 +247,14 @@ def gen_history(seed, tier, classes=None, weights=None, n_ops=(6, 16),
                  not any(isinstance(v, dict) for v in cur.values()) and
                  s.name not in ("SDML", "SDML_Supervised", "RCA_Supervised") and
                  feasible(s.name, cur, D))
-    if dk != s.data and not regen and data_free and r.random() < 0.4:
+    one_class = bool(datasets[dk].get("one_class_pairs")) and s.name in PAIRS
+    if one_class:
+      # a pair set with one kind of pair only: not a well-formed training set, the
+      # fit may raise - but then it must do so whatever the object went through before
+      if dk != s.data and _data(datasets[s.data]).d != D.d:
+        return
+      s.data = dk
+    elif dk != s.data and not regen and data_free and r.random() < 0.4:
       # hyper-parameters that do not depend on the data: refit on the other
       # dataset (other size / dimensionality) without touching them
       s.data = dk
